@@ -21,6 +21,8 @@ from pyvc.builtins import _hash_fns, arr_sum
 from pyvc.dsl import And, Contract, ForAll, Implies, Loop, Not, Or, SBool, SInt, SList, SObj, SOpaque, T, cmp, idx_term, register, to_term_int
 from pyvc.lists import NONE_REF, SOptInt, SRef, heap_list
 
+import contracts.parser_state  # noqa: F401,E402  (Symbol.__eq__ contract: equality of symbol names)
+
 I = z3.IntSort()
 ChildHashSeq = z3.Function("ChildHashSeq", I, I)       # node -> identity of the sequence of its children's hashes
 TreeHash = z3.Function("TreeHash", I, I)
@@ -405,3 +407,277 @@ class Tree_getitem(Contract):
     def replay(self, obligation, model):
         from contracts import replay_tree
         return replay_tree.slice_script(obligation, model)
+
+
+# ------------------------------------------------------------------------------------------------ replace_multiple
+
+PathExt = z3.Function("PathExt", I, I, I, I)      # path, kind of step (0 child / 1 source), index -> path
+ReplacementAt = z3.Function("ReplacementAt", I, I)  # path -> identity of the replacement tree registered for it
+SymOfTree = z3.Function("SymOfTree", I, I)         # tree identity -> identity of its symbol
+
+
+def path_value(cx, ident):
+    p = SOpaque("path", ident)
+
+    def add(op, other, ident=ident):
+        # current_path + (ChildStep(i),)  /  + (SourceStep(i),)
+        if isinstance(other, tuple) and len(other) == 1 and isinstance(other[0], SObj) and other[0].cls in ("ChildStep", "SourceStep"):
+            st = other[0]
+            kind = 0 if st.cls == "ChildStep" else 1
+            return path_value(cx, PathExt(ident, z3.IntVal(kind), to_term_int(st.fields["index"])))
+        from pyvc.values import Unsupported
+        raise Unsupported("path concatenation of an unexpected shape")
+
+    p.attrs["binop"] = add
+    p.attrs["isinstance"] = lambda n: n == "tuple"
+    return p
+
+
+def plain_tree(cx, name, fresh=False, symbol_obj=None, read_only=None):
+    """a tree node described by identity, symbol, flags and a child list (used for copies, replacements and results)"""
+    t = SObj("DerivationTree", {}, fresh=fresh, label=name)
+    t.ident = cx.const(name + "_id", I)
+    t.fields["_symbol"] = symbol_obj if symbol_obj is not None else symbol(cx, name + "_symbol")
+    t.fields["read_only"] = cx.bool(name + "_read_only") if read_only is None else read_only
+    t.fields["_parent"] = None
+    t.fields["_sender"] = None
+    t.fields["_recipient"] = None
+    t.fields["hash_cache"] = None
+    t.fields["_size"] = cx.int(name + "_size")
+    t.fields["origin_repetitions"] = cx.opaque_list(cx.int(name + "_n_origin", lo=0), fresh=fresh)
+    t.fields["_children"] = heap_list(cx, name + "_children", cx.int(name + "_n_children", lo=0), "DerivationTree", CHILD_FIELDS, fresh=fresh)
+    t.fields["_sources"] = heap_list(cx, name + "_sources", cx.int(name + "_n_sources", lo=0), "DerivationTree", CHILD_FIELDS, fresh=fresh)
+    t.fields["@invalidated"] = False
+    return t
+
+
+@register
+class Tree_deepcopy_method(Contract):
+    """assumed here: deepcopy builds a tree none of whose nodes is shared with the receiver and that carries the same
+    symbol (its body is a memoised recursion over copy.deepcopy; the bounded half checks it)"""
+    target = f"{REL}:DerivationTree.deepcopy"
+    trusted = True
+
+    def fresh_result(self, cx, a):
+        src = a["self"]
+        t = plain_tree(cx, "copy", fresh=True, symbol_obj=src.fields.get("_symbol"), read_only=src.fields.get("read_only"))
+        cx.ghost.setdefault("deepcopies", []).append((src, t))
+        return t
+
+
+@register
+class Tree_get_choices_path(Contract):
+    """assumed: the path of a node from its root is a function of the node"""
+    target = f"{REL}:DerivationTree.get_choices_path"
+    trusted = True
+    PathOf = z3.Function("PathOf", I, I)
+
+    def fresh_result(self, cx, a):
+        return path_value(cx, self.PathOf(a["self"].ident))
+
+
+@register
+class Tree_eq(Contract):
+    """assumed here: == on trees is a boolean function of the two trees (structural, via hashes: verified as __hash__)"""
+    target = f"{REL}:DerivationTree.__eq__"
+    trusted = True
+    TreeEq = z3.Function("TreeEq", I, I, z3.BoolSort())
+
+    def fresh_result(self, cx, a):
+        o = a["other"]
+        if getattr(o, "ident", None) is None:
+            return cx.bool("eq")
+        return SBool(self.TreeEq(a["self"].ident, o.ident))
+
+
+@register
+class Tree_ne(Contract):
+    target = f"{REL}:DerivationTree.__ne__"
+    inline = True
+
+
+@register
+class Grammar_populate_sources(Contract):
+    """assumed: touches only the tree it is given (marks generated children read-only, sets sources)"""
+    target = "language/grammar/grammar.py:Grammar.populate_sources"
+    trusted = True
+
+    def fresh_result(self, cx, a):
+        t = a["tree"]
+        cx.ghost.setdefault("populated", []).append(t)
+        return None
+
+
+def _rm_children_havoc(cx, env, i):
+    env["new_children"] = cx.opaque_list(i, fresh=True, label="new_children")
+    env["new_children"].ghost["all_fresh"] = True
+    env["regen_params"] = cx.bool("regen_params")
+
+
+def _rm_sources_havoc(cx, env, i):
+    env["sources"] = cx.opaque_list(i, fresh=True, label="new_sources")
+    env["regen_children"] = cx.bool("regen_children")
+
+
+def _len_is(name):
+    def inv(cx, env, i):
+        l = env[name]
+        n = l.length if not l.concrete else len(l.items)
+        return [(f"{name}_has_one_entry_per_visited_node", T(cmp("==", n, i)))]
+    return inv
+
+
+def _appends_fresh(name):
+    def post(cx, env, i, events):
+        # what was appended in this iteration is the (fresh) result of the recursive call
+        wrote = [w for w in cx.writes if w[0] is env[name] and w[1] == "@items"]
+        ok = bool(wrote) and isinstance(wrote[-1][2], SObj) and wrote[-1][2].fresh
+        return [(f"{name}_receives_a_new_tree", z3.BoolVal(ok))]
+    return post
+
+
+@register
+class Tree_replace_multiple(Contract):
+    """recursive case (paths already computed), for a node whose symbol has no generator:
+      * the result is a NEW node (never the receiver, never the registered replacement itself) carrying the receiver's symbol,
+      * a replacement is taken only at a registered path, only if the symbols agree and the receiver is not read-only,
+        and then it is a deep copy of the registered tree,
+      * no field of a pre-existing object is written (the receiver, its children, the replacements stay as they are)."""
+    target = f"{REL}:DerivationTree.replace_multiple"
+    properties = ("C10", "C16", "C01")
+    float_mode = "real"
+    explore_unlisted_params = False
+    loops = {
+        0: Loop(0, iter_text="replacements", inv=lambda cx, env, i: [], havoc=lambda cx, env, i: None, modifies=("replacee", "replacement", "path_to_replacement")),
+        1: Loop(1, iter_text="enumerate(new_subtree._children)", inv=_len_is("new_children"), havoc=lambda cx, env, i: env.__setitem__("new_children", cx.opaque_list(i, fresh=True)),
+                modifies=("new_children", "i", "child"), body_post=_appends_fresh("new_children")),
+        2: Loop(2, iter_text="enumerate(self._sources)", inv=_len_is("sources"), havoc=_rm_sources_havoc,
+                modifies=("sources", "regen_children", "i", "param", "new_param"), body_post=_appends_fresh("sources")),
+        3: Loop(3, iter_text="enumerate(self._children)", inv=_len_is("new_children"), havoc=_rm_children_havoc,
+                modifies=("new_children", "regen_params", "i", "child", "new_child"), body_post=_appends_fresh("new_children")),
+    }
+
+    def inputs(self, cx):
+        setup(cx)
+        cx.ghost["inline_ok"] |= {f"{REL}:DerivationTree.__init__", f"{REL}:DerivationTree.sources@setter", f"{REL}:DerivationTree.read_only",
+                                  f"{REL}:PathStep.__init__", f"{REL}:ChildStep.__init__", f"{REL}:SourceStep.__init__"}
+        s = node(cx, "self", "child")
+        s.fields["_parent"].fields["_children"] = cx.opaque_list(cx.int("siblings", lo=1))
+        g = SObj("Grammar", {}, fresh=False, label="grammar")
+        g.ident = cx.const("grammar_id", I)
+        gens = cx.int_dict("generators")
+        g.fields["generators"] = gens
+        # this contract covers nodes whose symbol is not defined by a generator (the generator branch re-runs user code)
+        cx.assume(Not(z3.Select(gens.keys, s.fields["_symbol"].ident)))
+        p2r = cx.int_dict("path_to_replacement")
+
+        memo = {}
+
+        def repl_at(key):
+            from pyvc.builtins import Builtins
+            kid = Builtins(None).ident_term(key)
+            k = kid.sexpr()
+            if k not in memo:       # the same entry read twice is the same object
+                r = plain_tree(cx, "replacement", fresh=False)
+                r.ident = ReplacementAt(kid)
+                memo[k] = r
+            return memo[k]
+
+        p2r.base = repl_at
+        cur = path_value(cx, cx.const("current_path", I))
+        cx.ghost["p2r_keys0"] = p2r.keys
+        cx.ghost["cur_path"] = cur
+        return {"self": s, "grammar": g, "replacements": cx.opaque_list(cx.int("n_replacements", lo=0)),
+                "path_to_replacement": p2r, "current_path": cur}
+
+    # call-site direction (recursion): a new tree with the child's symbol
+    def fresh_result(self, cx, a):
+        src = a["self"]
+        sym = src.fields["_symbol"] if "_symbol" in src.fields else None
+        t = plain_tree(cx, "replaced", fresh=True, symbol_obj=sym)
+        return t
+
+    def ensures(self, cx, a, r):
+        if cx.ghost.get("call_site"):
+            return []
+        s = a["self"]
+        if not isinstance(r, SObj):
+            return [("returns_a_tree", z3.BoolVal(False))]
+        copies = cx.ghost.get("deepcopies", [])
+        took_replacement = any(t is r for _, t in copies)
+        registered = z3.Select(cx.ghost["p2r_keys0"], cx.ghost["cur_path"].ident)
+        sym_r = r.fields["_symbol"] if "_symbol" in r.fields else None
+        same_symbol = z3.BoolVal(sym_r is s.fields["_symbol"]) if not took_replacement else (sym_r.ident == s.fields["_symbol"].ident)
+        bad = non_fresh_writes(cx)
+        out = [
+            ("result_is_a_new_node", z3.BoolVal(r.fresh and r is not s)),
+            ("result_carries_the_receivers_symbol", same_symbol),
+            ("inputs_not_written", z3.BoolVal(not bad)),
+        ]
+        if took_replacement:
+            out.append(("replacement_only_at_a_registered_path", registered))
+            out.append(("read_only_nodes_are_never_replaced", Not(T(s.fields["read_only"]))))
+        return out
+
+
+# ------------------------------------------------------------------------------------------------ sources setter
+
+def _ss_havoc(cx, env, i):
+    srcs = env["self"].fields["_sources"]
+    if "arrays" in srcs.ghost:
+        srcs.ghost["arrays"]["_parent"] = ("ref", z3.Array(cx._name("src_parents"), I, I))
+
+
+def _ss_inv(cx, env, i):
+    s = env["self"]
+    srcs = s.fields["_sources"]
+    if "arrays" not in srcs.ghost:
+        return []
+    it = idx_term(i) if not isinstance(i, int) else z3.IntVal(i)
+    j = z3.Int(cx._name("sj"))
+    return [("sources_seen_so_far_point_to_receiver", ForAll([j], Implies(And(j >= 0, j < it), parents_array(srcs)[j] == s.ident)))]
+
+
+@register
+class Tree_sources_setter(Contract):
+    target = f"{REL}:DerivationTree.sources@setter"
+    properties = ("C10",)
+    float_mode = "real"
+    cases = ("list", "none")
+    loops = {0: Loop(0, iter_text="self._sources", inv=_ss_inv, havoc=_ss_havoc, modifies=("param", "self._sources"))}
+
+    def inputs(self, cx, case):
+        setup(cx)
+        s = node(cx, "self", "root")
+        new = heap_list(cx, "new_sources", cx.int("n_new", lo=0), "DerivationTree", CHILD_FIELDS) if case == "list" else None
+        cx.ghost["new_list"] = new
+        cx.ghost["hash0"] = s.fields["hash_cache"]
+        return {"self": s, "source": new}
+
+    def effects(self, cx, a):
+        s, new = a["self"], a["source"]
+        cx.log_write(s, "_sources")
+        if new is None:
+            from pyvc.values import SList as _SL
+            s.fields["_sources"] = _SL([])
+            return
+        s.fields["_sources"] = new
+        if isinstance(new, SList) and "arrays" in new.ghost:
+            cx.log_write(new, "elements._parent")
+            new.ghost["arrays"]["_parent"] = ("ref", z3.K(I, s.ident))
+
+    def fresh_result(self, cx, a):
+        return None
+
+    def ensures(self, cx, a, r):
+        if cx.ghost.get("call_site"):
+            return []
+        s = a["self"]
+        new = cx.ghost["new_list"]
+        if new is None:
+            srcs = s.fields["_sources"]
+            return [("none_becomes_empty_list", z3.BoolVal(isinstance(srcs, SList) and srcs.concrete and not srcs.items))]
+        n = to_term_int(new.length)
+        j = z3.Int(cx._name("sj"))
+        return [("sources_installed", z3.BoolVal(s.fields["_sources"] is new)),
+                ("every_source_points_to_receiver", ForAll([j], Implies(And(j >= 0, j < n), parents_array(new)[j] == s.ident)))]
